@@ -96,6 +96,15 @@ func cmdC03(args []string) {
 				rb := make([]byte, 1+r.Intn(40))
 				r.Read(rb)
 				junks = append(junks, rb, append([]byte(me), rb...))
+				// VERBATIM copies of earlier, different root records: complete and self-consistent in
+				// every field except that their trailer offset names the place they came from
+				seen := 0
+				for j := k - 2; j >= 0 && seen < 3; j-- {
+					if muts[j].Kind == memfile.Write && isRootRecord(muts[j].Data) && !bytes.Equal(muts[j].Data, root) {
+						junks = append(junks, muts[j].Data, append(append([]byte{}, rb...), muts[j].Data...))
+						seen++
+					}
+				}
 				for _, j := range junks {
 					emit(fmt.Sprintf("crashj 1 %d 0 %s", k, hexs(j)))
 					extra["junk_images"]++
